@@ -88,3 +88,37 @@ Proof.
   intros a s r tmo x' code H. rewrite (resume_m_rejected_unchanged a s r tmo x' code H). repeat split.
 Qed.
 Print Assumptions c10_rejected_unchanged.
+
+(* ---- additions after review (docs/reviews/C10.md) --------------------------------------------------------------- *)
+
+(* resume_m agrees with resume_session on ALL outcomes (c10_resume_m_agrees above is the general statement: for
+   every store, session, resume), and when the call returns a session, the state it leaves behind is that session *)
+Theorem c10_resume_m_state : forall (a : assets) (s : session) (r : resume) (tmo : text) (x' y : st),
+  resume_m a s r tmo = (x', ORes (ROk y)) -> x' = y.
+Proof. exact resume_m_ok_state. Qed.
+Print Assumptions c10_resume_m_state.
+
+(* prepareForSprint, the only thing Resume does before its checks, modelled explicitly ([resume_mp], model/Engine.v):
+   on an engine error the session and the sprint are as they were, and the only thing that may differ is the
+   transient parentRun flag - which is not in the session's JSON, depends on the unchanged trigger only, and is
+   what prepareForSprint gives again on every later call *)
+Theorem c10_rejected_touches_only_transient : forall (a : assets) (s : session) (loaded : bool) (r : resume) (tmo : text)
+    (x' : st) (loaded' : bool) (code : N),
+  resume_mp a s loaded r tmo = (x', loaded', OErr code) ->
+  x' = {| session_ := s; sprint_ := empty_sprint |} /\
+  loaded' = (loaded || trigger_has_run (s_trigger s))%bool /\
+  prepare_for_sprint (session_ x') loaded' = loaded' /\ prepare_for_sprint (session_ x') loaded = loaded'.
+Proof. exact resume_mp_rejected. Qed.
+Print Assumptions c10_rejected_touches_only_transient.
+
+(* the fifth way a resume can end failed - "unable to resolve router exit" after resume.Apply (FRouteError), the one
+   that comes with extra events - cannot happen on validated definitions: findResumeExit does not fail *)
+From Verif Require Import proofs.EnginePaths.
+
+Theorem c10_route_error_unreachable : forall (a : assets) (s : session) (r : resume) (tmo : text)
+    (wi pos : nat) (n : node) (rt : router) (w : wait) (y : st),
+  valid_assets a -> path_location a s wi = Some (pos, n) -> n_router n = Some rt -> rt_wait rt = Some w ->
+  accepts w r = true ->
+  find_resume_exit a (apply_resume (resume_x0 s) wi (Some (wi, pos)) r) wi (is_timeout r) tmo <> FreErr y.
+Proof. exact route_error_unreachable. Qed.
+Print Assumptions c10_route_error_unreachable.
